@@ -39,6 +39,14 @@ let handle (line : string) : string =
       string_of_bytes (hexs (sen_string (html = "1") (bytes_of_hex hex)))
   | ["senread"; hex] ->
       string_of_bytes (show_read (bytes_of_hex hex))
+  | ["jppath"; frags] ->
+      let fr w = match w.[0] with
+        | 'c' -> NChild (bytes_of_hex (String.sub w 1 (String.length w - 1)))
+        | _ -> NNth (z_of_string (String.sub w 1 (String.length w - 1))) in
+      let fs = List.map fr (List.filter (fun x -> x <> "") (String.split_on_char ' ' frags)) in
+      string_of_bytes (hex_of_bytes (print_path fs))
+  | ["jpparse"; hex] ->
+      string_of_bytes (model_jpparse (bytes_of_hex hex))
   | ["jpread"; delim; hex] ->
       string_of_bytes (model_jpread (List.hd (bytes_of_hex delim)) (bytes_of_hex hex))
   | ["write"; indent; mask; limit; data] ->
